@@ -50,18 +50,25 @@ HARNESSES = [
     H('k_parse_binary_entry', 'kani_header.rs', ['C01', 'C04', 'C05'], bounded='slice length <= 8 (all u32 counts)', timeout=600, doc='Ok iff count <= len; appends exactly input[..count]; no panic'),
     H('k_dec_u16', 'kani_header.rs', ['C01', 'C04', 'C05'], bounded='slice length <= 8 (all u32 counts)', timeout=900, doc='parse_entry_data_number<u16>: Ok iff 2*count <= len; BE words; reserve <= input length'),
     H('k_dec_u32', 'kani_header.rs', ['C01', 'C04', 'C05'], bounded='slice length <= 12 (all u32 counts)', timeout=900, doc='parse_entry_data_number<u32>'),
-    H('k_dec_u64', 'kani_header.rs', ['C01', 'C04', 'C05'], bounded='slice length <= 16 (all u32 counts)', timeout=900, doc='parse_entry_data_number<u64>'),
-    H('k_getters_binary', 'kani_header.rs', ['C05', 'C04'], bounded='headers of 3 entries (symbolic tags, 10 data shapes)', timeout=900, doc='get_entry_data_as_binary: first entry with the tag, Ok iff Bin, TagNotFound iff absent'),
-    H('k_getters_string', 'kani_header.rs', ['C05', 'C04'], bounded='headers of 3 entries', timeout=900, doc='get_entry_data_as_string'),
-    H('k_getters_string_array', 'kani_header.rs', ['C05', 'C04'], bounded='headers of 3 entries', timeout=900, doc='get_entry_data_as_string_array (StringArray or I18NString)'),
-    H('k_getters_u32', 'kani_header.rs', ['C05', 'C04'], bounded='headers of 3 entries', timeout=900, doc='get_entry_data_as_u32: first element; Err on empty array or other type'),
-    H('k_getters_u64', 'kani_header.rs', ['C05', 'C04'], bounded='headers of 3 entries', timeout=900, doc='get_entry_data_as_u64'),
+    H('k_dec_u64', 'kani_header.rs', ['C01', 'C05'], bounded='slice length <= 16 (all u32 counts)', timeout=900, doc='parse_entry_data_number<u64>'),
+    H('k_getters_binary', 'kani_header.rs', ['C05'], bounded='headers of 3 entries (symbolic tags, 10 data shapes)', timeout=900, doc='get_entry_data_as_binary: first entry with the tag, Ok iff Bin, TagNotFound iff absent'),
+    H('k_getters_string', 'kani_header.rs', ['C05'], bounded='headers of 3 entries', timeout=900, doc='get_entry_data_as_string'),
+    H('k_getters_string_array', 'kani_header.rs', ['C05'], bounded='headers of 3 entries', timeout=900, doc='get_entry_data_as_string_array (StringArray or I18NString)'),
+    H('k_getters_u32', 'kani_header.rs', ['C05'], bounded='headers of 3 entries', timeout=900, doc='get_entry_data_as_u32: first element; Err on empty array or other type'),
+    H('k_getters_u64', 'kani_header.rs', ['C05'], bounded='headers of 3 entries', timeout=900, doc='get_entry_data_as_u64'),
     H('k_getters_i18n', 'kani_header.rs', ['C05', 'C04'], bounded='headers of 3 entries', timeout=900, doc='get_entry_data_as_i18n_string: first locale; Err (not panic) on an empty table'),
     H('k_digest_algo', 'kani_constants.rs', ['C03'], doc='all u32: DigestAlgorithm::from_u32 equals the 7-value map of the Verus prelude'),
     H('k_tag_values', 'kani_constants.rs', ['C03', 'C02', 'C05'], doc='numeric values of the tags named in the Verus prelude'),
     H('k_echo_signature', 'kani_sigmod.rs', ['C04', 'C02'], bounded='signature length <= 8', doc='echo_signature never indexes past the signature'),
     H('k_compression_names', 'kani_compressor.rs', ['C15'], doc='each of the 5 CompressionType values parses back from its own name'),
-    H('k_entry_short', 'kani_header.rs', ['C04'], bounded='lengths 0, 3, 4, 8, 12, 15', timeout=900, doc='inputs shorter than 16 bytes: Err, no panic'),
+    H('k_append_int16', 'kani_header.rs', ['C09'], bounded='prior store length 1; 1 item (all values)', timeout=900, doc='IndexData::append Int16: 2-byte alignment, BE words, frame'),
+    H('k_append_int32', 'kani_header.rs', ['C09'], bounded='prior store length 1; 1 item (all values)', timeout=900, doc='IndexData::append Int32: 4-byte alignment'),
+    H('k_append_int64', 'kani_header.rs', ['C09'], bounded='prior store length 5; 1 item (all values)', timeout=900, doc='IndexData::append Int64: 8-byte alignment'),
+    H('k_append_ints_aligned', 'kani_header.rs', ['C09'], bounded='already aligned prior store; 1-2 items', tier='thorough', timeout=1800, doc='IndexData::append Int16/32/64 on an aligned store: no padding'),
+    H('k_append_bytes', 'kani_header.rs', ['C09'], bounded='fixed prior store lengths; 2 items (all values)', timeout=900, doc='IndexData::append Null/Char/Int8/Bin: verbatim, no alignment'),
+    H('k_append_strings', 'kani_header.rs', ['C09'], bounded='fixed prior store lengths, fixed short strings', timeout=900, doc='IndexData::append String/StringArray/I18NString: NUL-terminated items'),
+    H('k_entry_short', 'kani_header.rs', ['C04'], bounded='length 15', timeout=900, doc='an input one byte short of an index entry: Err, no panic'),
+    H('k_entry_short_all', 'kani_header.rs', ['C04'], bounded='lengths 0, 3, 4, 8, 12', tier='thorough', timeout=1800, doc='inputs shorter than 16 bytes: Err, no panic'),
     H('k_write_index_sink_1byte', 'kani_header.rs', ['C14'], bounded='one sink: accepts 1 byte per call, never fails (all tag/offset/count values)', doc='counterexample twin of V:IndexEntry::write_index: Ok => exactly the 16 canonical bytes'),
     H('k_write_index_sink_fail5', 'kani_header.rs', ['C14'], bounded='one sink: 1 byte per call, fails at call 5', tier='thorough', timeout=900, doc='Err => the 5 accepted bytes are a prefix of the canonical bytes'),
     # ---- C18 -------------------------------------------------------------------------------
